@@ -298,8 +298,8 @@ impl Model {
         for i in (0..n).rev() {
             nd[i] = if discardable(&items[i]) { nd[i + 1] } else { i };
         }
-        // replaced ranges: no breakpoints inside, only box-like items and implicit kerns (§869
-        // skips them without looking for breaks; anything else there is outside the domain)
+        // replaced ranges: no breakpoints inside, only box-like items and kerns (§869 skips them without looking for
+        // breaks; anything else there is outside the domain)
         let mut in_replaced = vec![false; n];
         for (i, it) in items.iter().enumerate() {
             if let Item::Disc { replace, .. } = it {
@@ -307,9 +307,22 @@ impl Model {
                     return Err(format!("discretionary at {i} replaces past the end"));
                 }
                 for j in i + 1..=i + replace {
+                    // §841 / §869: characters, ligatures, boxes, rules and kern nodes of ANY subtype (an explicit kern too:
+                    // \discretionary{a-}{b}{a\kern10pt b}); anything else is `confusion("disc3")` in TeX
                     match items[j] {
-                        Item::Box { .. } | Item::Kern { explicit: false, .. } => {}
+                        Item::Box { .. } | Item::Kern { .. } => {}
                         _ => return Err(format!("item {j} replaced by discretionary {i} is not box-like")),
+                    }
+                    // One shape is left out of the domain: an EXPLICIT kern that ends the replaced range and is followed
+                    // by glue. TeX steps over it (the glue after it is a breakpoint, with the discretionary as prev_p);
+                    // the code under test visits the replaced nodes and breaks AT the kern instead (listed finding
+                    // C04-explicit-kern-ending-replaced-range-is-a-breakpoint, fixed reproducer in c04's `known` phase).
+                    // What follows from a break in the middle of another break's replaced range is not modelled.
+                    if j == i + replace
+                        && matches!(items[j], Item::Kern { explicit: true, .. })
+                        && matches!(items.get(j + 1), Some(Item::Glue { .. }))
+                    {
+                        return Err(format!("explicit kern {j} ends the range replaced by discretionary {i} and is followed by glue"));
                     }
                     if in_replaced[j] {
                         return Err(format!("item {j} replaced twice"));
@@ -329,7 +342,9 @@ impl Model {
             let cand: Option<(i32, bool, BreakKind)> = match &items[i] {
                 Item::Box { .. } => None,
                 Item::Glue { .. } => {
-                    if auto_breaking && i > 0 && precedes_break(&items[i - 1]) {
+                    // after a discretionary and the nodes it replaces, prev_p is the discretionary itself (§869:
+                    // prev_p:=cur_p; cur_p:=s), whatever the last replaced node is
+                    if auto_breaking && i > 0 && (in_replaced[i - 1] || precedes_break(&items[i - 1])) {
                         Some((0, false, BreakKind::Glue))
                     } else {
                         None
@@ -367,7 +382,10 @@ impl Model {
             };
             if let Some((p, hyph, kind)) = cand {
                 if in_replaced[i] {
-                    return Err(format!("breakpoint candidate {i} inside a replaced range"));
+                    // §869 steps over the replaced nodes without looking at them: an explicit kern that ends a replaced
+                    // range and is followed by glue is NOT a breakpoint
+                    debug_assert!(matches!(items[i], Item::Kern { .. }));
+                    continue;
                 }
                 if p < INF_PENALTY {
                     break_at[i] = Some(breaks.len());
